@@ -8,13 +8,17 @@
      {"e":"deliver","b":..,"to":..}
    every event also carries  routes = {broker:[[peer,ssid],..]} (remote entries of each real trie),
    active = {broker:[[owner,ssid],..]} (subscription events the real replica reports active) and
-   coalesced = number of merges into non-empty sender buckets so far. *)
+   coalesced = number of merges into non-empty sender buckets so far, members = {broker:[peers in its member list]}.
+     {"e":"linkdown"|"linkup"|"gc","b":..,"to":..}   gc = the router's garbage-collection callback for peer `to' on b
+   The constant GcAsCode selects the intended design (FALSE) or what the code does around garbage collection
+   (TRUE, listed finding gc_peer_return): a schedule with a gc step that the intended design rejects is re-validated against the deviation, so that
+   only behaviour the listed finding explains is attributed to it. *)
 EXTENDS Gossip, TraceLib
 VARIABLE l
 Ev == Log[l]
 IsEvent(e) == l <= Len(Log) /\ Log[l].e = e /\ l' = l + 1
 
-KeyName(k) == k[1] \o "/" \o k[2]
+KeyName(k) == k[1] \o "." \o k[2] \o "/" \o k[3]
 Abs(p) == [k \in Keys |-> [a |-> p[k].a > 0, d |-> p[k].d > 0, on |-> IsAdded(p[k])]]
 PayloadOK(ev, p) == \A k \in Keys : LET x == ev.p[KeyName(k)] y == Abs(p)[k] IN x.a = y.a /\ x.d = y.d /\ x.on = y.on
 
@@ -22,11 +26,13 @@ PayloadOK(ev, p) == \A k \in Keys : LET x == ev.p[KeyName(k)] y == Abs(p)[k] IN 
 ObsOK(ev) ==
     Quiescent' =>
         /\ \A b \in Brokers : ToSet(ev.routes[b]) = routes'[b]
-        /\ \A b \in Brokers : ToSet(ev.active[b]) = { k \in Keys : IsAdded(st'[b][k]) }
+        /\ \A b \in Brokers : ToSet(ev.active[b]) = { <<k[1], k[3]>> : k \in { x \in Keys : IsAdded(st'[b][x]) } }
+MembersOK(ev) == GcAsCode => \A b \in Brokers : ToSet(ev.members[b]) = members'[b]
 
 TrReset == IsEvent("reset") /\ loc' = [b \in Brokers |-> {}] /\ st' = [b \in Brokers |-> Nothing] /\ routes' = [b \in Brokers |-> {}]
               /\ bc' = [b \in Brokers |-> [n \in Brokers |-> Nothing]] /\ gs' = [b \in Brokers |-> [n \in Brokers |-> Nothing]]
               /\ live' = [b \in Brokers |-> [n \in Brokers |-> FALSE]]
+              /\ up' = [b \in Brokers |-> [n \in Brokers |-> b # n]] /\ members' = [b \in Brokers |-> {}]
               /\ wire' = [b \in Brokers |-> [n \in Brokers |-> <<>>]] /\ now' = 1 /\ merged' = 0
 TrSub     == IsEvent("sub")      /\ ClientSub(Ev.b, Ev.s)   /\ ObsOK(Ev)
 TrUnsub   == IsEvent("unsub")    /\ ClientUnsub(Ev.b, Ev.s) /\ ObsOK(Ev)
@@ -35,16 +41,21 @@ TrPer     == IsEvent("periodic") /\ Periodic(Ev.b)          /\ ObsOK(Ev)
 TrPick    == IsEvent("pick") /\ Pick(Ev.b, Ev.to)
                 /\ LET m == wire'[Ev.b][Ev.to][Len(wire'[Ev.b][Ev.to])] IN Ev.kind = m.kind /\ PayloadOK(Ev, m.p)
                 /\ ObsOK(Ev)
-TrDeliver == IsEvent("deliver")  /\ Deliver(Ev.b, Ev.to)    /\ ObsOK(Ev)
+TrDeliver == IsEvent("deliver")  /\ Deliver(Ev.b, Ev.to)    /\ ObsOK(Ev) /\ MembersOK(Ev)
+TrDown    == IsEvent("linkdown") /\ LinkDown(Ev.b, Ev.to)   /\ ObsOK(Ev)
+TrUp      == IsEvent("linkup")   /\ LinkUp(Ev.b, Ev.to)     /\ ObsOK(Ev)
+(* the callback does nothing for a peer that is not in the member list *)
+TrGC      == IsEvent("gc") /\ (IF Ev.to \in members[Ev.b] THEN PeerGC(Ev.b, Ev.to) ELSE UNCHANGED gvars) /\ ObsOK(Ev) /\ MembersOK(Ev)
 (* {"e":"probe","b":..,"s":..,"fwd":[brokers that were sent a frame],"got":[[broker, copies received],..]}:
    a real publish on broker b; at quiescence it must be forwarded to and received by exactly the brokers with a live
    subscriber, one copy each *)
 TrProbe   == IsEvent("probe") /\ UNCHANGED gvars
-                /\ (Quiescent => /\ ToSet(Ev.fwd) = { p \in Others(Ev.b) : Ev.s \in loc[p] }
-                                 /\ ToSet(Ev.got) = { <<p, 1>> : p \in { q \in Brokers : Ev.s \in loc[q] } })
+                /\ (Quiescent => /\ ToSet(Ev.fwd) = ForwardedTo(Ev.b, Ev.s)
+                                 /\ ToSet(Ev.got) = { <<p, 1>> : p \in ReceivedBy(Ev.b, Ev.s) })
 
 TraceInit == GInit /\ l = 1 /\ MarkInit
-TraceNext == TrReset \/ TrSub \/ TrUnsub \/ TrPer \/ TrPick \/ TrDeliver \/ TrProbe
+TraceNext == TrReset \/ TrSub \/ TrUnsub \/ TrPer \/ TrPick \/ TrDeliver \/ TrProbe \/ TrDown \/ TrUp \/ TrGC
 MarkC == Mark(l)
-TraceInv == RoutingAtQuiescence /\ ForwardingAtQuiescence
+(* under the intended design every reached model state satisfies the property: conforming to it is satisfying C05 *)
+TraceInv == GcAsCode \/ (RoutingAtQuiescence /\ ForwardingAtQuiescence)
 =============================================================================
